@@ -261,7 +261,10 @@ def check(an: Analysis) -> None:
         w = g.must_pass(lambda n: n in s.fcalls, exits=("exit-return",), skip_edge=both(sc, normal_only))
         if w is not None:
             ob3.fail(fi, s.lookups[0].ast, "[present, expired] a path returns without calling the function again", CFG.show_path(w))
-        if s.dels:
+        refresh = s.dels + [m for m in s.moves if any(g.search([st], lambda n, m=m: n is m, skip_edge=normal_only) for st in s.stores)]
+        if not refresh:
+            ob3.fail(fi, s.lookups[0].ast, "[present, expired] the stale entry is neither deleted before nor moved to the end after the re-store: overwriting an OrderedDict key keeps its old position, so the freshly computed entry keeps a stale LRU rank and is evicted first")
+        elif s.dels:
             w = g.must_pass(lambda n: n in s.dels, exits=("exit-return",), skip_edge=both(sc, normal_only))
             if w is not None:
                 ob3.fail(fi, s.dels[0].ast, "[present, expired] the stale entry is not removed before the miss path", CFG.show_path(w))
@@ -299,6 +302,11 @@ def check(an: Analysis) -> None:
         w = g.search(starts, lambda n: n in s.pops, skip_edge=both(at, normal_only), include_start=True)
         if w is not None:
             ob4.fail(fi, s.pops[0].ast, "[len == limit after the store] an entry is evicted although the limit is not exceeded: fewer than `limit` recent keys are retained", CFG.show_path(w))
+        from ..kinds import strict as _strict
+
+        w = g.must_pass(lambda n: n in s.pops, starts=starts, exits=("exit-return", "exit-raise"), raising=_strict, skip_edge=over)
+        if w is not None:
+            ob4.fail(fi, s.pops[0].ast, "[len == limit + 1 after the store] the eviction can be skipped when something between the store and the size check raises or is cancelled (e.g. the await of the result): the cache then keeps more than `limit` entries alive for good", CFG.show_path(w))
         w = g.ordered(lambda n: n in s.stores, lambda n: n in s.pops)
         if w is not None:
             ob4.fail(fi, s.pops[0].ast, "eviction can run before the new entry was stored", CFG.show_path(w))
